@@ -147,6 +147,8 @@ def check(ctx):
     ctx.attempt(_empty_means_undefined)
     ctx.attempt(_ocr_table)
     ctx.attempt(forward.check_all, module_suffixes=('trs.trs', 'tract.tract'))
+    ctx.attempt(error_undef_tables)
+    ctx.attempt(common.test_then_shrink, [f for f in ctx.repo.funcs.values() if f.module.name.endswith(('trs.trs', 'unpack.unpackers', 'config.config'))])
     ctx.attempt(common.embedded_case_consistency, modules=('trs.trs',))
     ctx.attempt(common.clause_purity, [f for f in ctx.repo.funcs.values() if f.module.name.endswith(('trs.trs',))])
     ctx.attempt(common.parallel_shapes, [f for f in ctx.repo.funcs.values() if f.module.name.endswith(('trs.trs',))])
@@ -442,6 +444,23 @@ def _eq_hash(ctx):
                          f"while hash(TRS) == hash(str): sets / dicts that mix TRS objects and their key strings (as "
                          f"filter_duplicates does) treat every element as a duplicate",
               key="DEFUSE|TRS.__eq__|converts", where=common.loc(eq, conv[0]) if conv else None)
+    # ... and every answer other than a constant False is given under isinstance(other, TRS)
+    from ..srcmodel import facts_at
+    foreign = []
+    for r in walk_local(eq.node):
+        if isinstance(r, ast.Return) and r.value is not None and not (
+                isinstance(r.value, ast.Constant) and r.value.value in (False, NotImplemented)) \
+                and norm(r.value) != 'NotImplemented':
+            fs = [(txt, pol) for _e, txt, pol in facts_at(r)]
+            if not any(txt.replace(' ', '') in ('isinstance(other,TRS)', 'isinstance(other,self.__class__)', 'isinstance(other,type(self))')
+                       and pol for txt, pol in fs):
+                foreign.append((r, fs))
+    ctx.check(not foreign, 'DEFUSE', 'TRS.__eq__ answers True only to another TRS',
+              detail_bad=(f"`{norm(foreign[0][0])}` is reached with {[t for t, p in foreign[0][1] if p][:2]} (no isinstance(other, TRS)): a "
+                          f"TRS compares equal to a foreign object (its own string), and since hash(TRS) == hash(str) every "
+                          f"set / dict that mixes TRS objects with key strings (filter_duplicates does) takes each element "
+                          f"for a duplicate of its own key") if foreign else '',
+              key="DEFUSE|TRS.__eq__|foreign", where=common.loc(eq, foreign[0][0]) if foreign else None)
     t = ' '.join(norm(s) for s in hs.node.body)
     ctx.tri(t == 'return hash(self.trs)', 'trs' not in hashed and '_TRS__trs' not in hashed, 'DEFUSE', 'TRS.__hash__ hashes .trs',
             detail_bad=f"__hash__ is `{t}`: equal TRS strings no longer hash equal", key="DEFUSE|TRS.__hash__")
@@ -453,3 +472,47 @@ def _eq_hash(ctx):
              and any('_UNDEF_TRS' in norm(s) for s in n.body) for n in init.node.body)
     ctx.shape(ok, 'DEFUSE', "TRS(''/None) means undefined")
     ctx.shape('self.trs = trs' in t, 'DEFUSE', 'TRS.__init__ routes through the .trs setter')
+
+
+def error_undef_tables(ctx, rule='TBL'):
+    """TRS.is_error / TRS.is_undef decided for every combination: each of
+    Twp, Rge, Sec is valid (a number), undefined (no number, marked undefined)
+    or an error (no number, not marked), and each of the three `twp`, `rge`,
+    `sec` switches is on or off.  is_error must be true exactly when a
+    switched-on component is an error; is_undef exactly when a switched-on
+    component is undefined.  (3^3 * 2^3 = 216 cases each, by conditional
+    constant propagation through the two methods.)"""
+    from .. import ccp
+    import itertools
+    ci = ctx.repo.cls('trs.trs:TRS')
+    methods = {m.node.name: m.node for m in ci.methods.values()}
+    comps = ('twp', 'rge', 'sec')
+    for meth, kind in (('is_error', 'error'), ('is_undef', 'undef')):
+        fn = ci.methods.get(meth)
+        if fn is None:
+            ctx.undecided(rule, f"TRS.{meth} for all component states", 'method not found')
+            continue
+        n, bad = 0, []
+        try:
+            for states in itertools.product(('valid', 'undef', 'error'), repeat=3):
+                attrs = {}
+                for c, st in zip(comps, states):
+                    attrs[f"{c}_num"] = ccp.Sym(c) if st == 'valid' else None
+                    attrs[f"{c}_undef"] = st == 'undef'
+                for flags in itertools.product((True, False), repeat=3):
+                    obj = ccp.Obj(_methods=methods, **attrs)
+                    got = ccp.truth(ccp.run(fn.node, dict(zip(('self',) + comps, (obj,) + flags))))
+                    want = any(f and st == kind for f, st in zip(flags, states))
+                    n += 1
+                    if got != want:
+                        bad.append((states, flags, got))
+        except ccp.Unsupported as e:
+            ctx.undecided(rule, f"TRS.{meth} for all component states", f"not propagated ({e})")
+            continue
+        ex = bad[0] if bad else None
+        ctx.check(not bad, rule, f"TRS.{meth}: true exactly when a checked component is {'an error' if kind == 'error' else 'undefined'} "
+                                 f"({n} combinations)",
+                  detail_bad=(f"{len(bad)} of {n} combinations are wrong, e.g. Twp/Rge/Sec = {ex[0]} checked with "
+                              f"(twp, rge, sec) = {ex[1]} gives {ex[2]}: filter_errors() / the error flags "
+                              f"{'miss' if ex and not ex[2] else 'wrongly include'} such elements") if ex else '',
+                  key=f"{rule}|TRS.{meth}|table", where=fn.loc)
